@@ -133,7 +133,7 @@ fn class_len(a: &Artefact, t: &Tables, layer: Layer, c: MClass) -> usize {
 		Layer::Plain => (a.plain.as_ref().unwrap(), false),
 	};
 	match c {
-		MClass::Trunc | MClass::Subst | MClass::Del | MClass::Ins | MClass::Transp | MClass::Utf8Char => {
+		MClass::Trunc | MClass::Subst | MClass::Del | MClass::Ins | MClass::Transp | MClass::Utf8Char | MClass::CaseRun => {
 			byte_class_len(c, b.len(), text)
 		}
 		MClass::JsonNode => t
@@ -186,7 +186,7 @@ fn enumerate(
 	let mut ord = 0u64;
 	for i in it.lo..it.hi {
 		match it.class {
-			MClass::Trunc | MClass::Subst | MClass::Del | MClass::Ins | MClass::Transp | MClass::Utf8Char => {
+			MClass::Trunc | MClass::Subst | MClass::Del | MClass::Ins | MClass::Transp | MClass::Utf8Char | MClass::CaseRun => {
 				let m = byte_class_get(it.class, b, text, i);
 				if let Some(x) = m.apply(b) {
 					if !f(ord, &|| format!("{}{}", lname, m.describe()), fin(x)) {
@@ -314,6 +314,7 @@ fn class_from_name(s: &str) -> MClass {
 		MClass::Ins,
 		MClass::Transp,
 		MClass::Utf8Char,
+		MClass::CaseRun,
 		MClass::JsonNode,
 		MClass::BinField,
 		MClass::Frame,
@@ -481,6 +482,7 @@ fn build_items(c: &Corpus, tabs: &[Tables], thorough: bool) -> (Vec<Item>, Value
 		MClass::Transp,
 		MClass::Ins,
 		MClass::Utf8Char,
+		MClass::CaseRun,
 	];
 	let push = |items: &mut Vec<Item>, art: usize, ep: Ep, layer: Layer, class: MClass, n: usize, chunk: usize| {
 		let mut lo = 0;
